@@ -329,8 +329,11 @@ impl NarrowedShape {
     pub fn merge_in_shape(&mut self, shape: Shape, symbol_table: &mut BTreeMap<Rc<str>, Shape>) {
         match &mut self.types {
             NarrowingShape::Narrowed(types) => {
+                // `equivalent` asks whether the left shape is contained in
+                // the right one. A candidate is only a duplicate when that
+                // holds both ways: a wider tuple or list adds something.
                 for s in types.iter() {
-                    if s.equivalent(&shape, symbol_table) {
+                    if s.equivalent(&shape, symbol_table) && shape.equivalent(s, symbol_table) {
                         return;
                     }
                 }
